@@ -93,6 +93,65 @@ func ruleC16(c *Ctx, r *Report) {
 	if len(sSeeds) == 0 {
 		r.Bad("C16-R1", cl.Name()+":window-call", c.Pos(cl.Pos()), "the redact command does not obtain the window from the window function")
 	}
+	// (b') the window function reads package-level variables that the command fills through
+	// setters: every call of it comes after those setters on every path (a window resolved "up
+	// front" reads the zero values and always yields the default seven days)
+	{
+		read := map[*ssa.Global]bool{}
+		for f := range c.pkgReach(win) {
+			allInstrs(f, func(i ssa.Instruction) {
+				if ld, ok := i.(*ssa.UnOp); ok && ld.Op == token.MUL {
+					if g, ok := ld.X.(*ssa.Global); ok && g.Pkg == c.SPkg {
+						read[g] = true
+					}
+				}
+			})
+		}
+		// setter calls in the command: calls of package functions that store into those globals
+		setterOf := map[*ssa.Function]*ssa.Global{}
+		for _, f := range c.SortedFuncs() {
+			allInstrs(f, func(i ssa.Instruction) {
+				if st, ok := i.(*ssa.Store); ok {
+					if g, ok := st.Addr.(*ssa.Global); ok && read[g] && len(f.Blocks) == 1 {
+						setterOf[f] = g
+					}
+				}
+			})
+		}
+		for _, wc := range callsIn(cl, func(k string, _ *ssa.Call) bool { return k == fnFullName(win) }) {
+			var late []string
+			for g := range read {
+				// some setter call of g dominates the window call
+				dominated := false
+				hasSetter := false
+				allInstrs(cl, func(i ssa.Instruction) {
+					sc, ok := i.(*ssa.Call)
+					if !ok {
+						return
+					}
+					callee := c.staticPkgCallee(&sc.Call)
+					if callee == nil || setterOf[callee] != g {
+						return
+					}
+					hasSetter = true
+					if sc.Block() == wc.Block() {
+						if instrIndex(sc) < instrIndex(wc) {
+							dominated = true
+						}
+					} else if sc.Block().Dominates(wc.Block()) {
+						dominated = true
+					}
+				})
+				if hasSetter && !dominated {
+					late = append(late, g.Name())
+				}
+			}
+			sort.Strings(late)
+			r.Check(len(late) == 0, "C16-R1", cl.Name()+":window-read-after-its-setters", c.InstrPos(wc),
+				"the window function is called after the setters of the variables it reads",
+				fmt.Sprintf("the window function is called before the command has stored the flag values into %v: it reads their zero values and returns the default window, whatever --atlasLogStartDate / --atlasLogEndDate say", late))
+		}
+	}
 	t0 := roleTaint(c, true, sSeeds...)
 	t1 := roleTaint(c, true, eSeeds...)
 	tProj := roleTaint(c, true, an.FlagAlloc["atlasProjectId"])
@@ -424,6 +483,8 @@ func ruleC16(c *Ctx, r *Report) {
 		}
 		r.Check(okAll && copies == 1, "C16-R5", a.perHost.Name()+":temp-file-writers", c.InstrPos(ct), "temp file is written only by one io.Copy(tmpFile, resp.Body)", fmt.Sprintf("temp file content is not the verbatim response body: copies=%d other uses=%v", copies, uses))
 	}
+
+	atlasRequestHeadersRule(c, r, []*ssa.Function{a.perHost, a.info}, "C16-R5")
 
 	// ---- R6: pairing of file i with <outputFile>.<i>
 	r.Floor("C16-R6", 1, "per-file loop")
